@@ -15,7 +15,8 @@ _CHAN_NOTE = ("Trusts the vsim model of mutex/condition/join (POSIX semantics, s
               "at channel-call granularity plus two explicit pauses of the writer inside write_map: before its first lock call, and between its "
               "wait-condition check and its sleep; abort_write+write_unmap is one writer step (as in source.c); a mapped reader maps again only "
               "in the shape the runtime can reach (it holds everything committed; refused; then unmap(0)); channel_rewind is called at arbitrary moments at which the writer is idle. "
-              "The virtual clock often starts just before a full second (timespec carries).")
+              "The virtual clock often starts just before a full second (timespec carries) and the lap counter near 2^8 / 2^16 / 2^32. "
+              "C02 and C03 have an integration part that runs harness rt with the focus on C02 / C03 (held regions must not change; a source asleep in channel_write_map is always released).")
 
 _RT_NOTE = ("Trusts the vsim model (POSIX mutex/condition/join semantics, sequential consistency, scheduling points at platform calls, at "
             "every 4th consecutive clock read and - in about a quarter of the cases - at generated basic-block edges of the runtime/HAL/property "
@@ -23,7 +24,9 @@ _RT_NOTE = ("Trusts the vsim model (POSIX mutex/condition/join semantics, sequen
             "proxy device instead) and the client grammar "
             "(tier A: configure only while not running, MAP never on a mapped reader, whole-frame consumption, stop only for finite "
             "acquisitions - documented back-pressure makes the other programs hang by design). Rings hold 1.1-8 frames instead of 1 GiB "
-            "(sink.c/filter.c compiled with channel_new renamed). Weak-memory effects and preemption inside one basic block are not explored.")
+            "(sink.c/filter.c compiled with channel_new renamed) and start their lap counter at 0, 250, 65530 or 2^32-6. Frame counts are <= 33, or practically endless "
+            "(no limit, 2^32+3, 2^40+1: such an acquisition must not end by itself). The client may map a second time without unmap (must be refused, harmlessly) and may unmap "
+            "late after stop/abort released its region. Weak-memory effects and preemption inside one basic block are not explored.")
 
 
 def _rt(text, technique, ref):
@@ -124,7 +127,8 @@ CHECKS = {
                 "acquisition, as the statement restricts), a second device pointed at the running device's file (refused by the lock; must be harmless), two devices open or running at the same time, and a scripted scenario in which descriptor numbers are reused across three devices after a failed append. Paths have varying lengths and are sometimes passed in oversized buffers. After every acquisition in which start and all appends reported success the file is "
                 "read back and must equal the concatenation of the appended packets byte for byte.",
         "note": "Trusts the vfd interposition (open/close/pwrite/flock of platform.c renamed), the scratch file system (/dev/shm), and the "
-                "generator's frame builder. Acquisitions during which the platform layer reported a failure to the device are not judged here (C16).",
+                "generator's frame builder. The raw file is judged whenever start and every append returned Ok (also when an injected OS fault fired in between); "
+                "in a sixth of the cases ~260 descriptors are already open, so that the device's files get numbers above 255.",
         "technique": "property-based testing (rapidcheck tapes, libFuzzer) with a round-trip oracle: file bytes == appended bytes, under injected short writes",
         "design_ref": "DESIGN.md section 3, harness stor, C14",
     },
@@ -153,7 +157,8 @@ CHECKS = {
                 "the device is not Running afterwards.",
         "note": "Faults are those the injector produces at platform.c's open/flock/pwrite; std::filesystem calls in side-by-side-tiff.cpp are not "
                 "faulted. The storage sources are compiled with file_write/file_create wrapped so the oracle knows what the platform layer returned. "
-                "A write failure during start must make start fail; failures inside stop are only required not to crash/recurse/leak.",
+                "A write failure during start must make start fail; failures inside stop are only required not to crash/recurse/leak. A write or lock on a descriptor the "
+                "device does not hold is recorded and then sent where the OS would send it.",
         "technique": "systematic fault enumeration over generated life-cycle histories + property-based testing with injected faults; descriptor ledger oracle",
         "design_ref": "DESIGN.md section 3, harness stor, C16",
     },
@@ -167,7 +172,7 @@ CHECKS = {
                 "buffer overrun or misaligned vector access aborts the case and is minimised by delta debugging.",
         "note": "Rendered (full-resolution) images are kept at <= 8 Ki pixels, rarely 64 Ki / 1 Mi, for throughput; configuration changes happen "
                 "between runs and never while another caller is inside a frame call (it sized its buffer for the old shape). Under-fill is only "
-                "judged for the random camera (last 8 image bytes must be written).",
+                "judged for the random camera (last 8 image bytes must be written). A buffer allocation inside set may be made to fail: a refused set is repeated, one that reports Ok is used as configured.",
         "technique": "property-based testing (rapidcheck tapes on a deterministic scheduler) against a shape/read-back model under ASan+UBSan",
         "design_ref": "DESIGN.md section 3, harness simcam, C17",
     },
@@ -181,7 +186,7 @@ CHECKS = {
                 "scheduler's deadlock detector, not by a timeout; no camera thread survives stop.",
         "note": "Trusts the vsim model (sequential consistency; scheduling points at platform calls and, in about a quarter of the cases, at "
                 "generated basic-block edges of simulated.camera.c and the HAL camera.c). Triggers are counted when the call starts. In runs where caller A makes frame calls, B does not, "
-                "so that B (the only one who triggers/stops) cannot starve itself.",
+                "so that B (the only one who triggers/stops) cannot starve itself. Trigger-enable values are 1, 2, 0x80, 0xfe; per-run oracles are applied to frame calls that lie within one run.",
         "technique": "property-based testing over generated schedules (deterministic scheduler, PCT/walk) with history invariants and deadlock detection",
         "design_ref": "DESIGN.md section 3, harness simcam, C18",
     },
@@ -228,7 +233,8 @@ CHECKS = {
         "note": "Trusts the value model in harness/props/props.cpp (stored value = input bytes with the last byte forced to NUL, "
                 "NULL/empty input -> \"\"), clang AddressSanitizer, and that callers zero an object after destroy before reusing it. "
                 "Dimension names are always NUL-terminated (documented C string); realloc is modelled as always moving. After an "
-                "injected allocation failure the field values of the object concerned are not judged until it is destroyed or completely overwritten by a copy.",
+                "injected allocation failure the field values of the object concerned are not judged until it is destroyed or completely overwritten by a copy. "
+                "Integration part: harness stor with the focus on C13 reads the shipped devices' own copies back with storage_get after every accepted set.",
         "technique": "property-based testing (rapidcheck stateful tapes vs. reference model + allocation ledger); libFuzzer on the same target",
         "design_ref": "DESIGN.md section 3, harness props",
     },
